@@ -41,7 +41,10 @@ package highlight
 //@   nopanic
 //@   infer
 
+// what is emitted between the marks comes from the stored text (f.Orig) only: the analyzed form of a term
+// (TermLocation.Term: lower-cased, stemmed) is never read, so it cannot end up in the fragment
 //@ func HTMLFragmentFormatter.Format
+//@   noread TermLocation.Term
 //@   nopanic
 //@   infer
 //@   loop 1
@@ -49,7 +52,10 @@ package highlight
 //@   requires f != nil && 0 <= f.Start && f.Start <= f.End && f.End <= len(f.Orig)
 //@   requires forall i int :: 0 <= i && i < len(orderedTermLocations) ==> (orderedTermLocations[i] == nil || (0 <= orderedTermLocations[i].Start && orderedTermLocations[i].Start <= orderedTermLocations[i].End))
 
+// what is emitted between the marks comes from the stored text (f.Orig) only: the analyzed form of a term
+// (TermLocation.Term: lower-cased, stemmed) is never read, so it cannot end up in the fragment
 //@ func ANSIFragmentFormatter.Format
+//@   noread TermLocation.Term
 //@   nopanic
 //@   infer
 //@   loop 1
